@@ -39,7 +39,7 @@ EXTENDS Integers, Sequences, FiniteSets, TLC, Json
 
 CONSTANTS MaxLen,     \* maximal number of records
           MaxDelta,   \* time step between consecutive records of an individual: 0..MaxDelta
-          Profile,    \* 1 = quick alphabet, 2 = thorough alphabet
+          Profile,    \* 1 = quick alphabet, 2 = thorough alphabet, 3 = steady-state focus
           AllowBack,  \* 1: an individual's id may re-appear later (non-contiguous ids)
           EmitMod, EmitSel   \* a finished dataset is emitted iff Hash(data) % EmitMod = EmitSel
 
@@ -54,10 +54,14 @@ ColConfigs ==
      {"MDV", "ADDL"},                                 \* no EVID: only observations and doses
      {}}                                              \* ID TIME AMT DV only
 \* <<addl, ii, ss, cmt>>
-DoseForms ==
-    {<<0, 0, 0, 1>>, <<1, 1, 0, 1>>, <<2, 1, 0, 1>>, <<1, 2, 0, 2>>, <<0, 0, 0, 2>>, <<0, 1, 1, 1>>}
+\* Profile 3 = steady-state focus (run exhaustively at MaxLen 3 next to the main run): only observations and doses, with and
+\* without SS = 1 / SS = 2, in the column configurations that have an SS column; every dose / SS dose / observation tie is enumerated
+FocusForms == {<<0, 0, 0, 1>>, <<0, 1, 1, 1>>, <<0, 1, 2, 1>>, <<0, 0, 1, 1>>, <<0, 0, 2, 1>>, <<1, 1, 2, 1>>}
+DoseForms == IF Profile = 3 THEN FocusForms ELSE
+    {<<0, 0, 0, 1>>, <<1, 1, 0, 1>>, <<2, 1, 0, 1>>, <<1, 2, 0, 2>>, <<0, 0, 0, 2>>, <<0, 1, 1, 1>>,
+     <<0, 1, 2, 1>>}      \* SS = 2: steady-state dose superposed on the previous doses (still a steady-state dose: SS > 0)
     \cup (IF Profile >= 2 THEN {<<2, 2, 0, 1>>, <<1, 1, 1, 1>>, <<0, 2, 1, 2>>} ELSE {})
-IdModes == {"asc", "desc"}
+IdModes == IF Profile = 3 THEN {"asc"} ELSE {"asc", "desc"}
 DoseCmt == 1       \* number of the default dosing compartment of the model the dataset is attached to
 DefaultAdm == 1    \* ... and its administration id
 ObsCmt == 2        \* CMT value on observation records when a CMT column exists
@@ -114,11 +118,11 @@ ResetForms == {<<0, 0, 0, 1>>, <<1, 1, 0, 1>>, <<0, 0, 0, 2>>}
 
 DoObs == \E c \in IdChoices, dt \in 0..MaxDelta : AddObs(c, dt)
 DoDose == \E c \in IdChoices, dt \in 0..MaxDelta, f \in DoseForms : AddDose(c, dt, f)
-DoSmallDose == \E c \in IdChoices, dt \in 0..MaxDelta, f \in FracForms : AddSmallDose(c, dt, f)
-DoOther == \E c \in IdChoices, dt \in 0..MaxDelta : AddOther(c, dt)
-DoMissing == \E c \in IdChoices, dt \in 0..MaxDelta, withdv \in BOOLEAN : AddMissing(c, dt, withdv)
-DoReset == \E c \in IdChoices : \E t \in ResetTimes(c) : AddReset(c, t)
-DoResetDose == \E c \in IdChoices : \E t \in ResetTimes(c), f \in ResetForms : AddResetDose(c, t, f)
+DoSmallDose == Profile # 3 /\ \E c \in IdChoices, dt \in 0..MaxDelta, f \in FracForms : AddSmallDose(c, dt, f)
+DoOther == Profile # 3 /\ \E c \in IdChoices, dt \in 0..MaxDelta : AddOther(c, dt)
+DoMissing == Profile # 3 /\ \E c \in IdChoices, dt \in 0..MaxDelta, withdv \in BOOLEAN : AddMissing(c, dt, withdv)
+DoReset == Profile # 3 /\ \E c \in IdChoices : \E t \in ResetTimes(c) : AddReset(c, t)
+DoResetDose == Profile # 3 /\ \E c \in IdChoices : \E t \in ResetTimes(c), f \in ResetForms : AddResetDose(c, t, f)
 
 \* ---------------------------------------------------------------- helpers on a record sequence
 \* reset group of record i: number of reset events (EVID 3/4) of its individual up to and including i
@@ -174,13 +178,18 @@ Enter(S, i, ws) ==
         w0 == IF r.blk # ws.blk THEN Fresh(r.blk) ELSE ws
     IN IF r.evid >= 3 THEN [w0 EXCEPT !.rg = @ + 1, !.ld = -1, !.pd = -1] ELSE w0
 \* how record i relates to dose records at its own time point
+\* the time value of record i re-occurs in another reset group of its individual (class of finding C14-F9: not judged here)
+SlotRecurs(S, i) == \E j \in 1..Len(S) : S[j].blk = S[i].blk /\ S[j].time = S[i].time /\ RG(S, j) # RG(S, i)
+\* "sskeep": an observation after a steady-state dose (any SS > 0) that is not the individual's first dose keeps the dose
+\* period of that dose (get_doseid: "Except for steady state dose where the dose group is kept"); its TAD stays open
 TieClass(S, i, w0) ==
     LET r == S[i] IN
     IF r.amt > 0 THEN "dose"
     ELSE IF DosesBefore(S, i) = {} THEN "plain"
     ELSE IF Cardinality(DosesInSlot(S, i)) >= 2 THEN "free"       \* several doses at one time point
     ELSE IF r.mdv # 0 THEN "free"                                  \* not an observation (EVID 2, or EVID 0 with MDV 1)
-    ELSE IF "SS" \in cols /\ w0.lss > 0 THEN "choice"              \* steady-state dose
+    ELSE IF "SS" \in cols /\ w0.lss > 0                             \* steady-state dose (SS = 1 or SS = 2)
+         THEN (IF w0.dc = 1 \/ SlotRecurs(S, i) THEN "choice" ELSE "sskeep")
     ELSE IF w0.dc = 1 THEN "choice"                                \* first dose of the individual
     ELSE IF w0.pd = -1 THEN "free"                                 \* preceding dose is beyond a reset
     ELSE "prev"
@@ -211,6 +220,7 @@ Step(S, i, ws, ch) ==
               LET d == [doseid |-> w0.dc, dfree |-> TRUE, tad |-> 0, tfree |-> TRUE] IN
               [w |-> w0, o |-> base @@ adm0 @@ d @@ Alt(d)]
          [] tc = "prev" -> [w |-> w0, o |-> base @@ adm0 @@ prev @@ Alt(prev)]
+         [] tc = "sskeep" -> [w |-> w0, o |-> base @@ adm0 @@ cur @@ Alt([cur EXCEPT !.tad = prev.tad, !.tfree = prev.tfree])]
          [] tc = "choice" /\ ch = "prev" -> [w |-> w0, o |-> base @@ adm0 @@ prev @@ Alt(cur)]
          [] tc = "choice" /\ ch = "cur" -> [w |-> w0, o |-> base @@ adm0 @@ cur @@ Alt(prev)]
 IsChoice(S, i, ws) == TieClass(S, i, Enter(S, i, ws)) = "choice"
@@ -234,7 +244,7 @@ Finish == /\ phase = "xwalk" /\ k > Len(xdata)
           /\ phase' = "done"
           /\ UNCHANGED <<cols, idmode, data, xdata, ei, k, w, out, xout>>
 
-Init == /\ phase = "gen" /\ cols \in ColConfigs /\ idmode \in IdModes
+Init == /\ phase = "gen" /\ cols \in (IF Profile = 3 THEN {c \in ColConfigs : "SS" \in c} ELSE ColConfigs) /\ idmode \in IdModes
         /\ data = <<>> /\ xdata = <<>> /\ ei = 0 /\ k = 0 /\ w = Fresh(0) /\ out = <<>> /\ xout = <<>>
 Next == DoObs \/ DoMissing \/ DoDose \/ DoSmallDose \/ DoOther \/ DoReset \/ DoResetDose \/ Close
         \/ ExpandOne \/ SkipExpand \/ StartWalk \/ Walk \/ WalkTie \/ StartXWalk
